@@ -201,6 +201,36 @@ theorem header_copied (crl : CRL) (serial : Int) (cache : Option Cache) :
     simp only [check, gather_spec, header, fillNames]
     cases m.get serial <;> simp
 
+/-! ### repeated lookups on one CertificateList (inputs are only read) -/
+
+/-- lookup `i` of a sequence made on one CRL object is the single lookup on the original CRL value -/
+theorem checkSeq_index (crl : CRL) (qs : List (Int × Option Cache)) (i : Nat) :
+    (checkSeq crl qs)[i]? = qs[i]?.map (fun q => check crl q.1 q.2) := by
+  simp [checkSeq]
+
+/-- every lookup of a sequence reports the same CRL number, the same two extension lists and the same copied
+    header as any other one (in particular as the first): they depend on the CRL alone, not on the query, the cache
+    or on what was looked up before -/
+theorem checkSeq_crl_part_stable (crl : CRL) (qs : List (Int × Option Cache)) :
+    ∀ r ∈ checkSeq crl qs, ∀ r' ∈ checkSeq crl qs,
+      r.crlNumber = r'.crlNumber ∧ r.unknown = r'.unknown ∧ r.unknownCritical = r'.unknownCritical ∧
+      r.sig = r'.sig ∧ r.version = r'.version ∧ r.thisUpdate = r'.thisUpdate ∧ r.nextUpdate = r'.nextUpdate ∧
+      r.issuerRDNs = r'.issuerRDNs ∧ r.issuerNames = r'.issuerNames := by
+  intro r hr r' hr'
+  simp only [checkSeq, List.mem_map] at hr hr'
+  obtain ⟨q, _, rfl⟩ := hr
+  obtain ⟨q', _, rfl⟩ := hr'
+  obtain ⟨a1, a2, a3⟩ := ext_classification crl q.1 q.2
+  obtain ⟨b1, b2, b3⟩ := ext_classification crl q'.1 q'.2
+  obtain ⟨c1, c2, c3, c4, c5, c6⟩ := header_copied crl q.1 q.2
+  obtain ⟨d1, d2, d3, d4, d5, d6⟩ := header_copied crl q'.1 q'.2
+  refine ⟨by rw [a3, b3], by rw [a2, b2], by rw [a1, b1], by rw [c1, d1], by rw [c2, d2], by rw [c3, d3],
+    by rw [c4, d4], by rw [c5, d5], by rw [c6, d6]⟩
+
+example : (checkSeq ⟨1, 0, 0, [], [], [⟨7, 100⟩], [⟨[2, 5, 29, 20], false, [2, 2, 13, 197]⟩, ⟨[2, 5, 29, 28], true, [48, 0]⟩,
+    ⟨[2, 5, 29, 35], false, [48, 0]⟩]⟩ [(7, none), (6, none), (7, some [])]).map (fun r => (r.isRevoked, r.crlNumber, r.unknown.length)) =
+    [(true, 3525, 1), (false, 3525, 1), (false, 3525, 1)] := by decide
+
 /-! ### non-vacuity -/
 example : ∃ (crl : CRL) (c : Cache), c = firstWins crl.entries ∧ c ≠ [] :=
   ⟨⟨1, 0, 0, [], [], [⟨7, 100⟩, ⟨-3, 5⟩, ⟨7, 200⟩], []⟩, [(7, ⟨7, 100⟩), (-3, ⟨-3, 5⟩)], by decide, by decide⟩
